@@ -136,13 +136,13 @@ func specHdr(sid uint16, b2, b3, ptype, stype byte, sys [4]byte) [10]byte {
 // specSentHeader: the header of the control message handed to the runtime's async sender by the last SendAsync.
 func specSentHeader() [10]byte {
 	m := zzArg[hsms.Message]("hsms.(TransportRuntime).SendAsync", 1)
-	return m.HeaderBytes()
+	return m.(*hsms.ControlMessage).HeaderBytes()
 }
 
 func specSentIsControl() bool {
 	m := zzArg[hsms.Message]("hsms.(TransportRuntime).SendAsync", 1)
-	_, ok := m.(*hsms.ControlMessage)
-	return ok
+	c, ok := m.(*hsms.ControlMessage)
+	return ok && c != nil
 }
 
 func specSys(frame []byte) [4]byte { return [4]byte{frame[6], frame[7], frame[8], frame[9]} }
@@ -179,7 +179,13 @@ func specSid(frame []byte) uint16  { return uint16(frame[0])<<8 | uint16(frame[1
 //@ ensures [ignored]  zzRet[hsms.ConnState]("hsms.(TransportRuntime).State") != hsms.SelectedState ==> result && zzCalls("hsms.(TransportRuntime).TCPDown") == 0
 //@ ensures [one]      zzCalls("hsms.(TransportRuntime).State") == 1
 
-func specCtlHeader(m hsms.Message) [10]byte { return m.HeaderBytes() }
+func specCtlHeader(m hsms.Message) [10]byte { return m.(*hsms.ControlMessage).HeaderBytes() }
+
+// specNoTypedNil: an interface never wraps a nil *ControlMessage (the decoder only hands out real messages).
+func specNoTypedNil(m hsms.Message) bool {
+	c, ok := m.(*hsms.ControlMessage)
+	return !ok || c != nil
+}
 func specIsCtl(m hsms.Message) bool {
 	c, ok := m.(*hsms.ControlMessage)
 	return ok && c != nil
@@ -187,7 +193,7 @@ func specIsCtl(m hsms.Message) bool {
 
 //@ func (*transport).handleLinktestReq
 //@ nosafety nil-deref nil-iface
-//@ requires t != nil && msg != nil
+//@ requires t != nil && msg != nil && specNoTypedNil(msg)
 //@ emits hsms.(TransportRuntime).SendAsync, hsms.(TransportRuntime).TCPDown, hsms.(TransportRuntime).DeliverOwnedFrame
 //@ ensures [quiet] zzCalls("hsms.(TransportRuntime).TCPDown") == 0 && zzCalls("hsms.(TransportRuntime).DeliverOwnedFrame") == 0 && zzCalls("hsms.(TransportRuntime).SendAsync") <= 1
 //@ ensures [rsp]   specIsCtl(msg) && specCtlHeader(msg)[5] == 5 ==> zzCalls("hsms.(TransportRuntime).SendAsync") == 1 && specSentIsControl() &&
@@ -195,7 +201,7 @@ func specIsCtl(m hsms.Message) bool {
 
 //@ func (*transport).handleSelectReq
 //@ nosafety nil-deref nil-iface
-//@ requires t != nil && req != nil
+//@ requires t != nil && req != nil && specNoTypedNil(req)
 //@ emits hsms.(TransportRuntime).SendAsync, hsms.(TransportRuntime).TCPDown, hsms.(TransportRuntime).DeliverOwnedFrame, hsms.(TransportRuntime).CommitSelected, hsms.(TransportRuntime).SelectLost
 //@ ensures [quiet]  zzCalls("hsms.(TransportRuntime).TCPDown") == 0 && zzCalls("hsms.(TransportRuntime).DeliverOwnedFrame") == 0 && zzCalls("hsms.(TransportRuntime).SelectLost") == 0 &&
 //@                  zzCalls("hsms.(TransportRuntime).SendAsync") <= 1 && zzCalls("hsms.(TransportRuntime).CommitSelected") == 1
@@ -209,7 +215,7 @@ func specIsCtl(m hsms.Message) bool {
 
 //@ func (*transport).handleDeselectReq
 //@ nosafety nil-deref nil-iface
-//@ requires t != nil && msg != nil
+//@ requires t != nil && msg != nil && specNoTypedNil(msg)
 //@ emits hsms.(TransportRuntime).SendAsync, hsms.(TransportRuntime).TCPDown, hsms.(TransportRuntime).DeliverOwnedFrame, hsms.(TransportRuntime).State, hsms.(TransportRuntime).SelectLost, hsms.(TransportRuntime).CommitSelected
 //@ ensures [quiet]  zzCalls("hsms.(TransportRuntime).TCPDown") == 0 && zzCalls("hsms.(TransportRuntime).DeliverOwnedFrame") == 0 && zzCalls("hsms.(TransportRuntime).CommitSelected") == 0 &&
 //@                  zzCalls("hsms.(TransportRuntime).SendAsync") <= 1
